@@ -88,6 +88,11 @@ func (g *AbsGen) kvCmd() M {
 			c["li"] = float64(g.R.Intn(3))
 		}
 	}
+	// a plain write may carry a Session field (the HTTP API ignores it for set / cas, a raft command need not):
+	// it must never make the key held
+	if (op == "set" || op == "cas") && g.R.Intn(5) == 0 {
+		c["s"] = g.pick(sessIds)
+	}
 	return c
 }
 
@@ -203,6 +208,10 @@ func (g *AbsGen) txnOp() M {
 		o["mi"] = g.casIdx(k)
 	case "lock", "unlock", "check-session":
 		o["s"] = g.pick(sessIds)
+	case "set":
+		if g.R.Intn(5) == 0 {
+			o["s"] = g.pick(sessIds)
+		}
 	case "delete-tree":
 		o["k"] = keyJ(g.pick(WidePrefixes))
 	case "get-tree":
